@@ -13,6 +13,8 @@ import sys
 import warnings
 
 from . import interpose, simpool
+
+interpose.install_global()  # before the code under test is imported anywhere (it may bind datetime/time names)
 from .clock import SimClock, EPOCH0
 from .resources import (FakeResponse, FetchLog, InjectedError, RequestsShim, Store, SIM_REMOTE_DIR,
                         build_sim_resource, postprocess_bytes)
@@ -208,6 +210,15 @@ class RunDirector(Director):
         self.choices_rec.setdefault(str(self.op), []).append(nxt.name)
         return nxt
 
+    @staticmethod
+    def _pool_no(name):
+        if name[:1] in ("p", "e") and "w" in name:
+            try:
+                return int(name[1:name.index("w")])
+            except ValueError:
+                return 0
+        return 0
+
     def _pick(self, runnable, current):
         if self.explicit is not None:
             if self.explicit_i < len(self.explicit):
@@ -230,6 +241,17 @@ class RunDirector(Director):
                 return current
             others = [a for a in runnable if a is not current] or runnable
             return others[rng.randrange(len(others))]
+        if pol == "straggler":
+            # workers of earlier pools (left-overs of a failed request) are slow: they mostly run only when
+            # nobody else can; this keeps them alive across the caller's following operations
+            newest = max((self._pool_no(a.name) for a in runnable), default=0)
+            fresh = [a for a in runnable if a.is_client or self._pool_no(a.name) == newest]
+            old = [a for a in runnable if a not in fresh]
+            if old and (not fresh or rng.random() < self.sched_knob.get("q", 0.1)):
+                return old[rng.randrange(len(old))]
+            if current in fresh and rng.random() < 0.5:
+                return current
+            return fresh[rng.randrange(len(fresh))]
         if pol == "pct":
             for a in runnable:
                 if a.name not in self.prio:
@@ -318,9 +340,13 @@ class World:
         cf.wait = simpool.sim_wait
         threading.Thread = simpool.SimThread
         fc._ACTIVE_FILE_CACHES.clear()
+        self._dt_saved = [(m, interpose.patch_datetime_in(m)) for m in (co, rr, fc)]
         self.sim_resource = build_sim_resource(self)
 
     def _unpatch_modules(self):
+        for m, saved in self._dt_saved:
+            for name, val in saved:
+                setattr(m, name, val)
         self.co.ThreadPool = self._saved["ThreadPool"]
         self.co.tqdm = self._saved["tqdm"]
         self.rr.requests = self._saved["requests"]
@@ -641,6 +667,11 @@ class World:
     def run(self):
         gc_was = gc.isenabled()
         gc.disable()
+        import os as _os
+        import time as _t
+        tz_was = _os.environ.get("TZ")
+        _os.environ["TZ"] = self.knobs.get("tz", "UTC")  # the process' time zone is part of the configuration
+        _t.tzset()
         interpose.bind(self.fs, self.sched, self.clock, entropy_seed=mix(self.record["seed"], "entropy"))
         simpool.bind(self.sched)
         self._patch_modules()
@@ -681,6 +712,11 @@ class World:
                 interpose.unbind()
                 if gc_was:
                     gc.enable()
+                if tz_was is None:
+                    _os.environ.pop("TZ", None)
+                else:
+                    _os.environ["TZ"] = tz_was
+                _t.tzset()
         for a in self.sched.actors:
             if a.error is not None and self.harness is None:
                 self.harness = "worker thread raised %r" % (a.error,)
